@@ -54,12 +54,13 @@ class D(C):
 CLS = [G, P, C, Q, M, D]
 CNAME = {c: c.__name__ for c in CLS}
 BYNAME = {c.__name__: c for c in CLS}
-DEFKEY = {c: c.__module__ + '.' + c.__qualname__ for c in CLS}
+BYNAME['object'] = object        # a printer for object itself is the nearest class of last resort
+DEFKEY = {c: c.__module__ + '.' + c.__qualname__ for c in CLS + [object]}
 PREDS = [('isG', lambda v: isinstance(v, G)), ('isQ', lambda v: isinstance(v, Q)), ('always', lambda v: True),
          ('flagged', lambda v: bool(getattr(v, 'flag', False)))]       # depends on the instance, not on its class
 FLAGS = [(cs, cd, rd) for cs in (False, True) for (cd, rd) in ((True, True), (True, False), (False, False))]
 
-OPS = ([('rc', c.__name__) for c in CLS] + [('rn', c.__name__) for c in CLS] +
+OPS = ([('rc', c.__name__) for c in CLS] + [('rn', c.__name__) for c in CLS] + [('rc', 'object'), ('rn', 'object')] +
        [('rp', i) for i in range(len(PREDS))] + [('pr', c.__name__) for c in CLS] +
        [('prf', c.__name__) for c in CLS] + [('pc', c.__name__) for c in CLS] + [('pl', c.__name__) for c in CLS] +
        [('q', c.__name__, cs, cd, rd) for c in CLS for (cs, cd, rd) in FLAGS])
@@ -119,9 +120,9 @@ def impl_abstract(R):
     """Canonical read-back of the real registries, restricted to the lattice."""
     pp = R.pp
     direct, deferred = {}, {}
-    for c in CLS:
+    for c in CLS + [object]:
         f = R.registry.get(c)
-        if f is not None:
+        if f is not None and (c is not object or f is not R.base_registry.get(object)):
             fn = f.args[0] if hasattr(f, 'args') and f.args else f
             direct[c.__name__] = getattr(fn, 'tag', '?')
         g = pp._DEFERRED_DISPATCH_BY_NAME.get(DEFKEY[c])
@@ -170,7 +171,7 @@ class Model:
         if k == 'q':
             _, name, cs, cd, rd = op
             c = BYNAME[name]
-            scope = [x.__name__ for x in (c.__mro__[:-1] if cs else (c,))]
+            scope = [x.__name__ for x in (c.__mro__ if cs else (c,))]
             anyreg = any(x in self.cls for x in scope)
             if cd:
                 return ('eq', anyreg)
@@ -182,7 +183,7 @@ class Model:
         raise ValueError(op)
 
     def resolve(self, c):
-        for x in c.__mro__[:-1]:
+        for x in c.__mro__:
             if x.__name__ in self.cls:
                 return x.__name__
         return None
@@ -198,7 +199,7 @@ def canon(impl, model, want_ren=False):
             ren[t] = len(ren)
         return ren[t]
     key = []
-    for c in CLS:
+    for c in CLS + [object]:
         n = c.__name__
         m = model.cls.get(n)
         key.append((r(m[0]) if m else None, m[1] if m else None, n in model.live,
@@ -378,7 +379,7 @@ def explore(res, depth):
 
 def run(tier, seed):
     res = core.Result(PROPERTY, LEVEL, tier, seed)
-    depth = 5 if tier == 'quick' else 6
+    depth = 4 if tier == 'quick' else 6
     seen, levels, merged = explore(res, depth)
     a = res.agg
     hs = sorted(seen.values(), key=len)
